@@ -2,6 +2,7 @@
 //! Begin/End events (individually for anything suspicious, aggregated otherwise).
 use crate::alloc_track;
 use crate::cases::{Case, Ct, Space};
+use crate::steps;
 use crate::targets::{CaseIn, Res, TKind};
 use grin_core::global::{self, ChainTypes};
 use serde_json::{json, Value};
@@ -87,6 +88,8 @@ pub struct Outcome {
 	pub peak: u64,
 	pub maxreq: u64,
 	pub note: String,
+	/// the post-decode step that was in progress when the call panicked ("" = the decoder itself)
+	pub step: &'static str,
 }
 
 pub fn execute(space: &Space, c: &Case) -> Outcome {
@@ -103,6 +106,7 @@ pub fn execute(space: &Space, c: &Case) -> Outcome {
 		ctx: c.ctx.as_deref(),
 	};
 	LAST_PANIC.with(|p| *p.borrow_mut() = None);
+	steps::reset();
 	alloc_track::begin();
 	let r = catch_unwind(AssertUnwindSafe(|| (t.run)(&cin)));
 	let peak = alloc_track::peak();
@@ -114,15 +118,19 @@ pub fn execute(space: &Space, c: &Case) -> Outcome {
 			peak,
 			maxreq,
 			note: String::new(),
+			step: "",
 		},
 		Err(_) => {
 			let (loc, msg) = LAST_PANIC.with(|p| p.borrow_mut().take()).unwrap_or_default();
+			let step = steps::current();
+			steps::count_panicked(step);
 			Outcome {
 				out: "panic",
 				res: Res::default(),
 				peak,
 				maxreq,
 				note: format!("{} @ {}", msg, loc),
+				step,
 			}
 		}
 	}
@@ -190,6 +198,11 @@ fn flush_sums(space: &Space, w: &mut Nd, sums: &mut BTreeMap<(usize, &'static st
 		w.put(&json!({"k": "Sum", "dec": space.targets[t].name, "rd": rd, "ver": ver, "ct": ct, "n": s.n, "ok": s.ok, "err": s.err,
 			"post_ok": s.post_ok, "bytes": s.bytes, "reads": clamp(s.reads), "maxpeak": clamp(s.maxpeak), "wp": clamp(s.wp), "wl": s.wl, "hp": clamp(s.hp), "hl": s.hl, "seeds": s.seeds, "seeds_ok": s.seeds_ok}));
 	}
+	let counts = steps::take_counts();
+	if !counts.is_empty() {
+		let m: serde_json::Map<String, Value> = counts.iter().map(|(k, v)| (k.to_string(), json!([v[0], v[1]]))).collect();
+		w.put(&json!({"k": "Steps", "counts": m}));
+	}
 	w.flush();
 }
 
@@ -198,6 +211,7 @@ pub fn run(space: &Space, bounds: &Bounds, from: usize, to: usize, out: &str, ba
 	let skip: Vec<&str> = skip.split('|').filter(|x| !x.is_empty()).collect();
 	let mut skipped = 0u64;
 	install_panic_hook();
+	steps::set_announce(single);
 	let mut w = Nd::create(out);
 	let mut bad = Nd::create(bad_out);
 	let mut sums: BTreeMap<(usize, &'static str, u32, &'static str), Sum> = BTreeMap::new();
@@ -237,7 +251,7 @@ pub fn run(space: &Space, bounds: &Bounds, from: usize, to: usize, out: &str, ba
 			}
 			w.put(&begin_event(space, idx, &c));
 			w.put(&json!({"k": "End", "i": idx, "out": o.out, "consumed": clamp(o.res.consumed), "peak": clamp(o.peak),
-				"reads": clamp(o.res.reads), "maxreq": clamp(o.maxreq), "note": o.note, "gen": c.origin["gen"]}));
+				"reads": clamp(o.res.reads), "maxreq": clamp(o.maxreq), "note": o.note, "step": o.step, "gen": c.origin["gen"]}));
 			w.flush();
 			if suspicious && !single {
 				bad.put(&case_json(space, idx, &c));
